@@ -25,6 +25,16 @@ FILTERS = {
         " and bool(old(options.legacy_test_filter))), len(options.test) == 1 and options.test[0] == '.')",
         "implies((old(options.module) is None or len(old(options.module)) == 0) and (not bool(old(options.legacy_module_filter))"
         " or old(options.legacy_module_filter) == '.'), len(options.module) == 1 and options.module[0] == '.')",
+        # ... and the positional module filter '.' is only a placeholder (so that a test filter can follow): it adds no pattern
+        "implies(old(options.module) is not None and len(old(options.module)) >= 1 and old(options.legacy_module_filter) == '.',"
+        " len(options.module) == len(old(options.module)))",
+        # nothing but the positional filters is ever added
+        "implies(old(options.module) is not None and len(old(options.module)) >= 1, len(options.module) <= len(old(options.module)) + 1)",
+        "implies(old(options.test) is not None and len(old(options.test)) >= 1, len(options.test) <= len(old(options.test)) + 1)",
+        "implies(old(options.module) is not None and len(old(options.module)) >= 1 and not bool(old(options.legacy_module_filter)),"
+        " len(options.module) == len(old(options.module)))",
+        "implies(old(options.test) is not None and len(old(options.test)) >= 1 and not (bool(old(options.legacy_module_filter))"
+        " and bool(old(options.legacy_test_filter))), len(options.test) == len(old(options.test)))",
         # the positional filters are appended as the last pattern of their list
         "implies(bool(old(options.legacy_module_filter)) and old(options.legacy_module_filter) != '.',"
         " options.module[len(options.module) - 1] == old(options.legacy_module_filter))",
